@@ -971,6 +971,9 @@ impl PeerHandler {
                 st
             ),
         );
+        // the step is over: a later exit without a new trigger is a connection-level end
+        self.verif_trig = "{\"k\":\"Idle\"}".to_string();
+        self.verif_called = false;
     }
 
     fn verif_exit(&mut self, reason: &str) {
